@@ -15,13 +15,13 @@
 #include <pthread.h>
 #include <time.h>
 
-namespace simsched { struct ThreadRec; }
+namespace simsched { struct ThreadRec; int current_tid(); }
 
 namespace std {
 
 class sim_mutex {
 public:
-  sim_mutex() noexcept;
+  constexpr sim_mutex() noexcept {}
   ~sim_mutex();
   sim_mutex(const sim_mutex &) = delete;
   sim_mutex &operator=(const sim_mutex &) = delete;
@@ -131,9 +131,118 @@ public:
   bool is_lock_free() const noexcept { return v_.is_lock_free(); }
 };
 
+// ---- the rest of the standard blocking vocabulary, composed from sim_mutex + sim_condition_variable so that code which
+// uses it (the repository does not; a refactoring might) still blocks inside the simulator and never for real ----
+void sim_yield_event();   // this_thread::yield / sleep_*: scheduling point that prefers another runnable thread
+
+class sim_recursive_mutex {
+  sim_mutex m_;
+  int owner_ = -1, depth_ = 0;
+public:
+  sim_recursive_mutex() = default;
+  sim_recursive_mutex(const sim_recursive_mutex &) = delete;
+  sim_recursive_mutex &operator=(const sim_recursive_mutex &) = delete;
+  void lock() { int me = simsched::current_tid(); if (depth_ > 0 && owner_ == me) { depth_++; return; } m_.lock(); owner_ = me; depth_ = 1; }
+  bool try_lock() { int me = simsched::current_tid(); if (depth_ > 0 && owner_ == me) { depth_++; return true; } if (!m_.try_lock()) return false; owner_ = me; depth_ = 1; return true; }
+  void unlock() { if (--depth_ == 0) { owner_ = -1; m_.unlock(); } }
+};
+
+// mutexes with timed and/or shared acquisition: a monitor over (guard mutex, condition variable); whether a timed
+// acquisition gives up is the scheduler's decision, like every time-out
+class sim_shared_timed_mutex {
+  sim_mutex g_;
+  sim_condition_variable cv_;
+  bool writer_ = false;
+  int readers_ = 0;
+public:
+  sim_shared_timed_mutex() = default;
+  sim_shared_timed_mutex(const sim_shared_timed_mutex &) = delete;
+  sim_shared_timed_mutex &operator=(const sim_shared_timed_mutex &) = delete;
+  void lock() { std::unique_lock<sim_mutex> l(g_); while (writer_ || readers_ > 0) cv_.wait(l); writer_ = true; }
+  bool try_lock() { std::unique_lock<sim_mutex> l(g_); if (writer_ || readers_ > 0) return false; writer_ = true; return true; }
+  bool try_lock_timed_() { std::unique_lock<sim_mutex> l(g_); while (writer_ || readers_ > 0) if (!cv_.wait_timed_(l) && (writer_ || readers_ > 0)) return false; writer_ = true; return true; }
+  template <class R, class P> bool try_lock_for(const std::chrono::duration<R, P> &) { return try_lock_timed_(); }
+  template <class C, class D> bool try_lock_until(const std::chrono::time_point<C, D> &) { return try_lock_timed_(); }
+  void unlock() { { std::unique_lock<sim_mutex> l(g_); writer_ = false; } cv_.notify_all(); }
+  void lock_shared() { std::unique_lock<sim_mutex> l(g_); while (writer_) cv_.wait(l); readers_++; }
+  bool try_lock_shared() { std::unique_lock<sim_mutex> l(g_); if (writer_) return false; readers_++; return true; }
+  bool try_lock_shared_timed_() { std::unique_lock<sim_mutex> l(g_); while (writer_) if (!cv_.wait_timed_(l) && writer_) return false; readers_++; return true; }
+  template <class R, class P> bool try_lock_shared_for(const std::chrono::duration<R, P> &) { return try_lock_shared_timed_(); }
+  template <class C, class D> bool try_lock_shared_until(const std::chrono::time_point<C, D> &) { return try_lock_shared_timed_(); }
+  void unlock_shared() { bool last; { std::unique_lock<sim_mutex> l(g_); last = --readers_ == 0; } if (last) cv_.notify_all(); }
+};
+typedef sim_shared_timed_mutex sim_shared_mutex;
+typedef sim_shared_timed_mutex sim_timed_mutex;
+
+class sim_recursive_timed_mutex {
+  sim_timed_mutex m_;
+  int owner_ = -1, depth_ = 0;
+  bool mine_() const { return depth_ > 0 && owner_ == simsched::current_tid(); }
+  bool got_(bool ok) { if (ok) { owner_ = simsched::current_tid(); depth_ = 1; } return ok; }
+public:
+  sim_recursive_timed_mutex() = default;
+  sim_recursive_timed_mutex(const sim_recursive_timed_mutex &) = delete;
+  sim_recursive_timed_mutex &operator=(const sim_recursive_timed_mutex &) = delete;
+  void lock() { if (mine_()) { depth_++; return; } m_.lock(); got_(true); }
+  bool try_lock() { if (mine_()) { depth_++; return true; } return got_(m_.try_lock()); }
+  template <class R, class P> bool try_lock_for(const std::chrono::duration<R, P> &) { if (mine_()) { depth_++; return true; } return got_(m_.try_lock_timed_()); }
+  template <class C, class D> bool try_lock_until(const std::chrono::time_point<C, D> &) { if (mine_()) { depth_++; return true; } return got_(m_.try_lock_timed_()); }
+  void unlock() { if (--depth_ == 0) { owner_ = -1; m_.unlock(); } }
+};
+
+class sim_condition_variable_any {
+  sim_mutex g_;
+  sim_condition_variable cv_;
+  template <class L> struct relock_ { L &l; ~relock_() { l.lock(); } };
+public:
+  sim_condition_variable_any() = default;
+  sim_condition_variable_any(const sim_condition_variable_any &) = delete;
+  sim_condition_variable_any &operator=(const sim_condition_variable_any &) = delete;
+  void notify_one() noexcept { { std::unique_lock<sim_mutex> g(g_); } cv_.notify_one(); }
+  void notify_all() noexcept { { std::unique_lock<sim_mutex> g(g_); } cv_.notify_all(); }
+  template <class L> void wait(L &l) { std::unique_lock<sim_mutex> g(g_); l.unlock(); relock_<L> r{l}; cv_.wait(g); g.unlock(); }
+  template <class L, class Pred> void wait(L &l, Pred p) { while (!p()) wait(l); }
+  template <class L> bool wait_timed_(L &l) { std::unique_lock<sim_mutex> g(g_); l.unlock(); relock_<L> r{l}; bool ok = cv_.wait_timed_(g); g.unlock(); return ok; }
+  template <class L, class R, class P> std::cv_status wait_for(L &l, const std::chrono::duration<R, P> &) { return wait_timed_(l) ? std::cv_status::no_timeout : std::cv_status::timeout; }
+  template <class L, class R, class P, class Pred> bool wait_for(L &l, const std::chrono::duration<R, P> &d, Pred p) { while (!p()) if (wait_for(l, d) == std::cv_status::timeout) return p(); return true; }
+  template <class L, class C, class D> std::cv_status wait_until(L &l, const std::chrono::time_point<C, D> &) { return wait_timed_(l) ? std::cv_status::no_timeout : std::cv_status::timeout; }
+  template <class L, class C, class D, class Pred> bool wait_until(L &l, const std::chrono::time_point<C, D> &t, Pred p) { while (!p()) if (wait_until(l, t) == std::cv_status::timeout) return p(); return true; }
+};
+
+struct sim_once_flag {
+  constexpr sim_once_flag() noexcept {}
+  sim_once_flag(const sim_once_flag &) = delete;
+  sim_once_flag &operator=(const sim_once_flag &) = delete;
+  sim_mutex m_;
+  bool done_ = false;
+};
+template <class F, class... A> void sim_call_once(sim_once_flag &fl, F &&f, A &&...a) {
+  std::unique_lock<sim_mutex> l(fl.m_);   // held during the active execution: passive callers block in the simulator
+  if (fl.done_) return;
+  std::invoke(std::forward<F>(f), std::forward<A>(a)...);   // an exception leaves the flag unset, as the standard says
+  fl.done_ = true;
+}
+
+namespace this_thread {
+inline void sim_yield() noexcept { sim_yield_event(); }
+template <class R, class P> void sim_sleep_for(const std::chrono::duration<R, P> &) { sim_yield_event(); }
+template <class C, class D> void sim_sleep_until(const std::chrono::time_point<C, D> &) { sim_yield_event(); }
+} // namespace this_thread
+
 } // namespace std
 
 #define mutex sim_mutex
+#define recursive_mutex sim_recursive_mutex
+#define timed_mutex sim_timed_mutex
+#define recursive_timed_mutex sim_recursive_timed_mutex
+#define shared_mutex sim_shared_mutex
+#define shared_timed_mutex sim_shared_timed_mutex
+#define condition_variable_any sim_condition_variable_any
+#define once_flag sim_once_flag
+#define call_once sim_call_once
+#define yield sim_yield
+#define sleep_for sim_sleep_for
+#define sleep_until sim_sleep_until
 #define atomic sim_atomic
 #define condition_variable sim_condition_variable
 #define thread sim_thread
